@@ -225,6 +225,25 @@ func (c *Ctx) Fn(pkg, name string) *ssa.Function {
 			return fn
 		}
 	}
+	// an unexported method turned into a free function of the same package (or the reverse) keeps its name: accept the one
+	// function of that package with that name
+	if strings.HasPrefix(name, "(") {
+		if i := strings.Index(name, ")."); i > 0 {
+			bare := name[i+2:]
+			var found *ssa.Function
+			n := 0
+			for _, fn := range c.SrcFns {
+				if fn.Pkg != nil && fn.Pkg.Pkg.Path() == full && fn.Parent() == nil && fn.Name() == bare && !strings.Contains(bare, "$") {
+					found = fn
+					n++
+				}
+			}
+			if n == 1 && found.Signature.Recv() == nil && !found.Object().Exported() {
+				convertedAnchors[found] = true
+				return found
+			}
+		}
+	}
 	return nil
 }
 
@@ -383,4 +402,22 @@ func (c *Ctx) constString(pkg, name string) (string, bool) {
 		return out, true
 	}
 	return s, true
+}
+
+// convertedAnchors: functions a rule named as methods that were found as free functions (the receiver is gone, every parameter
+// index the rule uses is one too high)
+var convertedAnchors = map[*ssa.Function]bool{}
+
+// pAt: parameter k of fn in the numbering the rule was written for (receiver = 0 for methods); nil when there is none
+func pAt(fn *ssa.Function, k int) *ssa.Parameter {
+	if fn == nil {
+		return nil
+	}
+	if convertedAnchors[fn] {
+		k--
+	}
+	if k < 0 || k >= len(fn.Params) {
+		return nil
+	}
+	return fn.Params[k]
 }
